@@ -326,6 +326,7 @@ func runC03(p *core.Prog, r *core.Report) {
 	})
 	r.Guard("C03.R5", "pending-undo", "pending undo sent once", func() { checkPendingUndoSentOnce(p, r, "C03.R5") })
 	r.Guard("C03.R5", "gate-and-undo", "undo below the start block", func() { checkGateAndUndo(p, r, "C03.R5") })
+	r.GuardExact("C03.R5", "gate/undo-any-block", "undo answer independent of the block number", func() { checkUndoOpensRegardlessOfBlock(p, r, "C03.R5") })
 	r.Guard("C03.R5", "insideReorgUpTo/writers", "writers of insideReorgUpTo", func() {
 		f := p.Field(pkgPipe, "Pipeline", "insideReorgUpTo")
 		allowed := map[string]string{
